@@ -15,7 +15,13 @@ Operations (JSON):
   {"op":"load","cid":3,"attr":bool,"doc":{...}}
   {"op":"dump","attr":bool,"inst":value}
 meta  = {"ltr":"CAMEL"|..|null,"dtr":..,"raise":bool|null,"skipdef":bool|null,"rec":bool|null}
-value = null | {"i":int} | {"s":str} | {"sub":{"chain":[..],"root":"int"|"str"|"obj"},"z":int} | {"c":cid,"f":[[name,value],...]}
+        extended (direct predicate only, not in the Coq model): "auto_tags":bool, "tag_key":str,
+        "marshal":"TIMESTAMP"|"ISO_FORMAT", "skip_if":{"obj":id,"cond":[name,arg?]},
+        "jk2f":{"obj":id,"map":{json key: field}}   - equal "obj" ids denote the SAME Python object
+value = null | {"i":int} | {"s":str} | {"b":bool} | {"dt":iso} | {"c":cid,"f":[[name,value],...]}
+        | {"sub":{"mixins":[..],"chain":[..],"root":"int"|"str"|"obj"|"list"},"z":int}   (list: items [z, z+1])
+field types: "int" | "str" | {"nested":cid} | extended: "datetime" | "any" | "bool" | "badcond"
+        (badcond = Annotated[bool, IS_NOT(True)]: a bare Condition, the dump setup of the class raises)
 
 Outcome text (same syntax as coq/model/StateShow.v; classes named by cid in values, by
 qualname number in errors):
@@ -28,7 +34,11 @@ from _util import main
 logging.disable(logging.CRITICAL)
 
 META_KEYS = [('ltr', 'key_transform_with_load'), ('dtr', 'key_transform_with_dump'),
-             ('raise', 'raise_on_unknown_json_key'), ('skipdef', 'skip_defaults'), ('rec', 'recursive')]
+             ('raise', 'raise_on_unknown_json_key'), ('skipdef', 'skip_defaults'), ('rec', 'recursive'),
+             ('auto_tags', 'auto_assign_tags'), ('tag_key', 'tag_key'), ('marshal', 'marshal_date_time_as'),
+             ('skip_if', 'skip_if'), ('jk2f', 'json_key_to_field')]
+ANN = {'int': 'int', 'str': 'str', 'datetime': 'datetime', 'any': 'Any', 'bool': 'bool',
+       'badcond': 'Annotated[bool, IS_NOT(True)]'}
 
 
 def hx(s):
@@ -43,15 +53,31 @@ class Job:
         self.qn_of_name = {}   # class __qualname__ -> qn
         self.mods = {}
         self.vtypes = {}
+        self.shared = {}       # object id -> the one Python object (dict / Condition) it denotes
 
     def module(self, key):
         if key not in self.mods:
             name = 'dwv_%s_%s' % (self.salt, key)
             m = types.ModuleType(name)
             sys.modules[name] = m
-            exec('from dataclasses import dataclass\nfrom dataclass_wizard import JSONWizard\n', m.__dict__)
+            exec('from dataclasses import dataclass\nfrom datetime import datetime\nfrom typing import Any, Annotated\n'
+                 'from dataclass_wizard import JSONWizard, IS_NOT\n', m.__dict__)
             self.mods[key] = m
         return self.mods[key]
+
+    def meta_value(self, k, v):
+        """Python value of a Meta setting; shared objects are created once per id"""
+        if k == 'jk2f':
+            if v['obj'] not in self.shared:
+                self.shared[v['obj']] = dict(v['map'])
+            return self.shared[v['obj']]
+        if k == 'skip_if':
+            if v['obj'] not in self.shared:
+                import dataclass_wizard as dw
+                name, *arg = v['cond']
+                self.shared[v['obj']] = getattr(dw, name)(*arg)
+            return self.shared[v['obj']]
+        return v
 
     def cname(self, qn):
         return 'Q%s_%d' % (self.salt, qn)
@@ -72,14 +98,18 @@ class Job:
         lines = ['@dataclass', 'class %s%s:' % (name, bases)]
         if o.get('inner') is not None:
             lines.append('    class _(JSONWizard.Meta):')
-            body = ['        %s = %r' % (attr, o['inner'][k]) for k, attr in META_KEYS if o['inner'].get(k) is not None]
+            body = []
+            for k, attr in META_KEYS:
+                if o['inner'].get(k) is not None:
+                    ns['_MV_%s' % k] = self.meta_value(k, o['inner'][k])
+                    body.append('        %s = _MV_%s' % (attr, k))
             lines.extend(body or ['        pass'])
         for i, (fname, fty, dflt) in enumerate(o['own_fields']):
             if isinstance(fty, dict):
                 ns['_N%d' % i] = self.classes[fty['nested']]
                 ann = '_N%d' % i
             else:
-                ann = fty
+                ann = ANN[fty]
             lines.append('    %s: %s%s' % (fname, ann, '' if dflt is None else ' = %r' % (dflt,)))
         if len(lines) == 2:
             lines.append('    pass')
@@ -90,29 +120,35 @@ class Job:
 
     def bind(self, o):
         from dataclass_wizard import LoadMeta
-        kw = {attr: o['meta'][k] for k, attr in META_KEYS if o['meta'].get(k) is not None}
+        kw = {attr: self.meta_value(k, o['meta'][k]) for k, attr in META_KEYS if o['meta'].get(k) is not None}
         LoadMeta(**kw).bind_to(self.classes[o['cid']])
 
     def vtype(self, t):
-        chain, root = tuple(t['chain']), t['root']
-        key = (chain, root)
+        mixins, chain, root = tuple(t.get('mixins') or ()), tuple(t['chain']), t['root']
+        key = (mixins, chain, root)
         if key not in self.vtypes:
-            if not chain:
-                raise ValueError('empty chain')
-            if len(chain) == 1:
+            if mixins:
+                bases = tuple(self.vtype({'mixins': [], 'chain': [m], 'root': 'obj'}) for m in mixins)
+                if chain:
+                    bases += (self.vtype({'mixins': [], 'chain': list(chain), 'root': root}),)
+                elif root != 'obj':
+                    bases += ({'int': int, 'str': str, 'list': list}[root],)
+            elif not chain:
+                raise ValueError('empty type')
+            elif len(chain) == 1:
                 if root == 'obj':
                     class _O:
-                        def __init__(self, z):
-                            self.z = z
+                        z = '?'
 
                         def __str__(self):
-                            return 'obj%d' % self.z
-                    base = _O
+                            return 'obj%s' % (self.z,)
+                    bases = (_O,)
                 else:
-                    base = {'int': int, 'str': str}[root]
+                    bases = ({'int': int, 'str': str, 'list': list}[root],)
             else:
-                base = self.vtype({'chain': list(chain[1:]), 'root': root})
-            self.vtypes[key] = type('V%s_%s_%s' % (self.salt, '_'.join(map(str, chain)), root), (base,), {})
+                bases = (self.vtype({'mixins': [], 'chain': list(chain[1:]), 'root': root}),)
+            name = 'V%s_%s_%s_%s' % (self.salt, 'm'.join(map(str, mixins)), '_'.join(map(str, chain)), root)
+            self.vtypes[key] = type(name, bases, {})
         return self.vtypes[key]
 
     def value(self, v):
@@ -122,9 +158,17 @@ class Job:
             return v['i']
         if 's' in v:
             return v['s']
+        if 'b' in v:
+            return v['b']
+        if 'dt' in v:
+            import datetime
+            return datetime.datetime.fromisoformat(v['dt'])
         if 'sub' in v:
             t = self.vtype(v['sub'])
-            return t(str(v['z'])) if v['sub']['root'] == 'str' else t(v['z'])
+            root = v['sub']['root']
+            x = t([v['z'], v['z'] + 1]) if root == 'list' else t(str(v['z'])) if root == 'str' else t(v['z']) if root == 'int' else t()
+            x.z = v['z']
+            return x
         cls = self.classes[v['c']]
         obj = object.__new__(cls)          # like the constructor, without type checks or defaults
         for k, x in v['f']:
@@ -133,14 +177,21 @@ class Job:
 
     # ---- outcome rendering ----
     def show_inst(self, v):
+        import datetime
         if v is None:
             return 'n'
         if isinstance(v, bool):
-            return '?bool'
+            return 'b%d' % v
         if isinstance(v, int):
             return 'i%d' % v
         if isinstance(v, str):
             return 's' + hx(v)
+        if isinstance(v, datetime.datetime):
+            return 't' + v.isoformat()
+        if isinstance(v, list):
+            return 'l[%s]' % ','.join(self.show_inst(x) for x in v)
+        if type(v) is dict:
+            return 'D{%s}' % ','.join('%s:%s' % (hx(str(k)), self.show_inst(x)) for k, x in v.items())
         if dataclasses.is_dataclass(v) and type(v) in self.cid_of:
             return 'c%d(%s)' % (self.cid_of[type(v)], ','.join(
                 '%s=%s' % (hx(f.name), self.show_inst(getattr(v, f.name, '<unset>'))) for f in dataclasses.fields(v)))
@@ -150,7 +201,9 @@ class Job:
         if v is None:
             return 'n'
         if isinstance(v, bool):
-            return '?bool'
+            return 'b%d' % v
+        if isinstance(v, list):
+            return 'l[%s]' % ','.join(self.show_json(x) for x in v)
         if isinstance(v, int):
             return 'i%d' % v
         if isinstance(v, str):
